@@ -275,7 +275,9 @@ class Check:
             "known_findings_reproduced": [f"{a}: {b}" for a, b in self.known_hits],
             "stage_failures": self.stage_failures[:20], "notes": self.notes,
         }
-        with open(os.path.join(ROOT, "evidence", f"{self.pid}.json"), "w") as f:
+        evdir = os.environ.get("VERIF_EVIDENCE_DIR") or os.path.join(ROOT, "evidence")
+        os.makedirs(evdir, exist_ok=True)
+        with open(os.path.join(evdir, f"{self.pid}.json"), "w") as f:
             json.dump(ev, f, indent=1, default=str)
         for fid, what in self.known_hits:
             print(f"KNOWN-FINDING: property={self.pid} {fid} {what}")
